@@ -1,3 +1,3 @@
 SPECIFICATION Spec
 INVARIANTS TypeOK MsgsPrefix OkMeansAll TerminalUnique TermSource HeaderReads HeaderFrozen TrailerReads ServerGotClientMsgs PendingIsBlocked NoDeadEnd QuietAfterSeenCancel
-CONSTANT HandsOverSendersMessage = FALSE
+CONSTANT HandsOverSendersMessage = TRUE
